@@ -399,12 +399,17 @@ def oracle_preserve(a, expect=None):
                 obj = XmlParser(context=XmlContext(models_package=u.modname), handler=h).from_bytes(data, u.classes["Root"])
         except Exception as e:  # noqa: BLE001
             return f"{handler}: generic content admitted by the wildcard is not parsed: {type(e).__name__}: {e}"
-        for writer in ("native", "lxml"):
+        # rendered with the defaults and with one set of options away from them (user prefix map: default namespace /
+        # second prefix for a namespace of the document; xml declaration), a function of the document
+        opts = L.render_options(doc)
+        renders = [("", {}), (f" ns_map={opts['ns_map']}", {"ns_map": {p: x for p, x in opts["ns_map"]}, "xml_declaration": opts["xml_declaration"]})]
+        for writer, (how, kw) in [(w, r) for w in ("native", "lxml") for r in renders]:
             try:
-                xml = G.real_serialize(u, obj, writer=writer)
+                xml = G.real_serialize(u, obj, writer=writer, **{k: (dict(v) if isinstance(v, dict) else v) for k, v in kw.items()})
                 back = G.xml_tree(xml.encode())
             except Exception as e:  # noqa: BLE001
-                return f"{handler}/{writer}: serializing the parsed generic content failed: {type(e).__name__}: {e}"
+                return f"{handler}/{writer}{how}: serializing the parsed generic content failed: {type(e).__name__}: {e}"
+            writer = writer + how
             # first: what every attribute value denotes in the scope of its element (however it is spelled) ...
             d = L.first_diff(want_d, L.norm(back, host=True, denoted=True))
             if d:
